@@ -19,6 +19,7 @@ One request per line, fields separated by `|` (protocol documented in harness/c-
   cfree|<p>|<late 0|1>|<T>|<VAL> → ok sizes=<n,…>   byte sizes of the blocks the generated `<T>_free` helper frees, in order
                                   (late = 1: helper generated in a pass after the one that defined the shared anonymous types)
   ident|<hex name>              → <hex to_c_ident(name)>  (model over the regenerated escape table)
+  ifaceid|<exports 0|1>|<hex ns>|<hex pkg>|<hex version or ->|<multi 0|1>|<hex iface>  → <hex interface_identifier>
   dtor|<hex module>|<hex resource name>  → <hex model export name> <hex spec export name>
   csig|<flat 0|1>|(<shape> …)|<shape or _>  → params=<v0,p1,m2,o:ok,…> ret=<void|value|bool-option|bool-result> names=<ret,err,…>
 -/
@@ -126,6 +127,12 @@ def handle (line : String) : String :=
       match hexToChars n with
       | some n => charsToHex (Witverif.Text.CIdent.toCIdent n)
       | none => "bad-request"
+  | ["ifaceid", ex, ns, pkg, ver, multi, iface] =>
+      match hexToChars ns, hexToChars pkg, hexToChars iface with
+      | some ns, some pkg, some iface =>
+          let v := if ver == "-" then none else hexToChars ver
+          charsToHex (Witverif.Text.CIdent.interfaceIdentifier (ex == "1") ns pkg v (multi == "1") iface)
+      | _, _, _ => "bad-request"
   | ["dtor", m, n] =>
       match hexToStr m, hexToStr n with
       | some m, some n =>
